@@ -288,6 +288,113 @@ def round_half(a, b):
 
 def int_trunc(a, b):
     return int(a / 3) * 10 + (b / 2 > 0)
+
+from dataclasses import dataclass, field
+
+
+class Base:
+    k = 5
+
+    def __init__(self, x):
+        self.x = x
+
+    def val(self):
+        return self.x + self.k
+
+    @property
+    def twice(self):
+        return 2 * self.val()
+
+    @staticmethod
+    def st(v):
+        return v - 1
+
+    @classmethod
+    def make(cls, v):
+        return cls(v + cls.k)
+
+
+class Derived(Base):
+    k = 7
+
+    def __init__(self, x, y):
+        super().__init__(x)
+        self.y = y
+
+    def val(self):
+        return super().val() * 10 + self.y
+
+
+@dataclass
+class DC:
+    a: int
+    b: int = 3
+    items: list = field(default_factory=list)
+    total: int = field(init=False, default=0)
+
+    def __post_init__(self):
+        self.total = self.a + self.b
+
+
+@dataclass(frozen=True)
+class FZ:
+    a: int
+    b: int = 1
+
+
+def cls_attr(a, b):
+    o = Base(a)
+    p = Base(b)
+    o.k = 100
+    return o.val() * 1000 + p.val() + Base.k
+
+def inherit(a, b):
+    d = Derived(a, b)
+    return d.val() * 10 + d.twice + Derived.st(a)
+
+def classmeth(a, b):
+    o = Base.make(a)
+    try:
+        d = Derived.make(b)
+    except TypeError:
+        return o.x * 10 - 1
+    return o.x * 10 + d.x
+
+def isinst(a, b):
+    o = Derived(a, b) if a > b else Base(a)
+    return (1 if isinstance(o, Base) else 0) + (10 if isinstance(o, Derived) else 0) + (100 if type(o) is Base else 0)
+
+def dc_basic(a, b):
+    x = DC(a)
+    y = DC(a, b)
+    x.items.append(1)
+    return x.total * 100 + y.total * 10 + len(y.items) + (1000 if x == DC(a) else 0)
+
+def dc_eq(a, b):
+    return (1 if DC(a, b) == DC(b, a) else 0) + (10 if FZ(a) == FZ(a, 1) else 0) + (100 if FZ(a, b) != FZ(b, a) else 0)
+
+def dc_frozen(a, b):
+    f = FZ(a, b)
+    try:
+        f.a = b
+    except AttributeError:
+        return f.a * 10 + 1
+    return f.a * 10
+
+def missing_attr(a, b):
+    o = Base(a)
+    try:
+        return o.y
+    except AttributeError:
+        pass
+    return getattr(o, 'y', b) + (1000 if hasattr(o, 'x') else 0)
+
+def obj_alias(a, b):
+    o = Base(a)
+    p = o
+    q = Base(a)
+    p.x = b
+    return o.x * 100 + q.x * 10 + (1 if o is p else 0) + (2 if o is q else 0)
 '''
 
 
@@ -307,7 +414,8 @@ def main():
 
     native: dict = {}
     exec(compile(textwrap.dedent(CASES), 'cases.py', 'exec'), native)
-    names = [n for n, f in native.items() if callable(f) and not n.startswith('_')]
+    import types
+    names = [n for n, f in native.items() if isinstance(f, types.FunctionType) and not n.startswith('_') and n not in ('dataclass', 'field')]
     only = sys.argv[1:]
     lo, hi = -3, 3
     box = list(itertools.product(range(lo, hi + 1), repeat=2))
@@ -323,6 +431,11 @@ def main():
                 table[(a, b)] = ('ret', int(v))
             except Exception as e:      # noqa
                 table[(a, b)] = ('exc', type(e).__name__)
+
+        if os.environ.get('CPYDIFF_SELFTEST'):
+            # vacuity guard: one wrong table entry per case must come out as DISAGREE
+            kxy = sorted(k for k, (t, v) in table.items() if t == 'ret')[0]
+            table[kxy] = ('ret', table[kxy][1] + 1)
 
         def fn(h, name=name, table=table):
             a, b = h.int('a'), h.int('b')
@@ -400,7 +513,7 @@ def main():
     shutil.rmtree(tmp, ignore_errors=True)
     summary = dict(box=[lo, hi], cases=len(out), agree=sum(o['verdict'] == 'agree' for o in out),
                    skipped=sum(o['verdict'] == 'skipped' for o in out), disagree=bad, seconds=round(time.time() - t0, 1), results=out)
-    if not only:
+    if not only and not os.environ.get('CPYDIFF_SELFTEST'):
         (root / 'tools' / 'CPYDIFF.json').write_text(json.dumps(summary, indent=1))
     print(json.dumps({k: v for k, v in summary.items() if k != 'results'}))
     return 3 if bad else 0
